@@ -152,12 +152,11 @@ def subclasscheck(t1, t2):
 
 
 def _metaclass_of(t):
-    # The custom metaclass of K in type[K], if K is an ordinary class
+    # The metaclass of K in type[K], if K is an ordinary class
     (k,) = get_args(t) or (object,)
     mc = type(k)
     if (
         isinstance(k, type)
-        and mc is not type
         and not hasattr(mc, "__type_order__")
         and not hasattr(mc, "__is_supertype__")
         and not hasattr(mc, "__is_subtype__")
